@@ -593,7 +593,23 @@ func checkEscaping(c *Ctx, status, sanit *ssa.Function) {
 	msgString := P.Func("rtcm/handler", "(*Message).String")
 	t := NewTaint(P)
 	t.Scope = func(fn *ssa.Function) bool { return fn == status }
+	isBytes := func(t types.Type) bool {
+		sl, ok := t.Underlying().(*types.Slice)
+		if !ok {
+			return false
+		}
+		b, ok := sl.Elem().Underlying().(*types.Basic)
+		return ok && b.Kind() == types.Byte
+	}
+	isString := func(t types.Type) bool {
+		b, ok := t.Underlying().(*types.Basic)
+		return ok && b.Info()&types.IsString != 0
+	}
 	t.IsSource = func(v ssa.Value) bool {
+		// text made directly from recorded bytes: string(b)
+		if cv, ok := v.(*ssa.Convert); ok && isBytes(cv.X.Type()) && isString(cv.Type()) {
+			return true
+		}
 		call, ok := v.(*ssa.Call)
 		if !ok {
 			return false
@@ -601,6 +617,14 @@ func checkEscaping(c *Ctx, status, sanit *ssa.Function) {
 		f := call.Call.StaticCallee()
 		if f == nil {
 			return false
+		}
+		// a helper of the module that turns bytes into text
+		if P.InModule(f) && f != sanit && f.Signature.Results().Len() >= 1 && isString(f.Signature.Results().At(0).Type()) {
+			for _, a := range call.Call.Args {
+				if isBytes(a.Type()) {
+					return true
+				}
+			}
 		}
 		if f == msgString || calleeFullName(f) == "encoding/hex.Dump" || calleeFullName(f) == "encoding/hex.EncodeToString" {
 			return true
